@@ -415,9 +415,14 @@ func c10RunStackCase(w *c10Worker, sc *c10StackCase) (out c10StackOutcome) {
 							break
 						}
 					}
-					for i := top + 1; i < op.I; i++ {
+					// where the inserted value lands is not judged, but whatever the operation leaves in the
+					// list is a Lua value: a Go nil handed out by Get crashes the first host function that
+					// passes it on (repaired once as C10-F1; every slot up to the new top is read)
+					for i := top + 1; i <= L.GetTop(); i++ {
 						if L.Get(i) == nil {
 							out.gapGoNil = true
+							fail(fmt.Sprintf("stack/%s/%s/go-nil-in-the-list/%s", opn, icl, cfg.class()), fmt.Sprintf("%s on %s: Get(%d) is a Go nil, not LNil", op.text(pos), c10ShowList(model), i))
+							break
 						}
 					}
 				}
